@@ -413,6 +413,80 @@ def metadata_file(prog, res, rule="R-TIFF-LAYOUT"):
                  "side_by_side_tiff_start: %s: metadata.json ends in a NUL byte or loses its last character and is not valid JSON" % why)
 
 
+def string_section(prog, res, rule="R-TIFF-LAYOUT"):
+    """StringSection::reserve (the buffer the TIFF description strings are
+    built in) by the linear domain with the allocation ghost: assuming the
+    buffer holds `capacity` bytes and size <= capacity on entry, the n bytes
+    handed out start at data + old size inside a live allocation, and on return
+    size and offset both grew by n and size <= capacity again."""
+    from .. import linear as L, allocghost as G
+    fs = [g for g in prog.all_funcs() if g.name.endswith("StringSection::reserve")]
+    if not fs:
+        raise AnalysisBroken("StringSection::reserve not found")
+    f = fs[0]
+    res.touched(f)
+    problems = []
+
+    def m_memset(an, f_, e, st):
+        p_ = an.eval(f_, e["args"][0], st)[0][0]
+        n_ = an.eval(f_, e["args"][2], st)[0][0]
+        why = G.check_access(st, p_, n_)
+        if why:
+            problems.append("memset: " + why)
+        return [(L.lconst(0), st)]
+    an = L.Analysis(prog)
+    an.models.update({"malloc": G.m_malloc, "realloc": G.m_realloc, "free": G.m_free, "memset": m_memset})
+    st0 = L.State()
+    data0 = an.eval(f, {"k": "mem", "arrow": True, "b": {"k": "this"}, "f": "data", "pd": 1}, st0)[0][0]
+    cap0 = an.read(st0, "this->capacity", False)
+    size0 = an.read(st0, "this->size", False)
+    off0 = an.read(st0, "this->offset", False)
+    st0.assume_le(L.lscale(size0, -1))
+    st0.assume_le(L.lsub(size0, cap0))
+    G.adopt(st0, list(data0)[0], cap0)
+    nparam = f.params[0]["n"]
+    good = 0
+    for rv, st in an.run(f, st0):
+        if rv is None or (L.is_const(rv) and rv.get(L.ONE, 0) == 0):
+            continue
+        good += 1
+        n_ = an.read(st, "%s:%s" % (f.name, nparam))
+        data1 = st.cells.get("this->data", data0)
+        size1, off1, cap1 = st.cells.get("this->size", size0), st.cells.get("this->offset", off0), st.cells.get("this->capacity", cap0)
+        if not st.entails_eq(L.lsub(rv, L.ladd(data1, size0))):
+            problems.append("the region handed out does not start at data + (old) size")
+        why = G.check_access(st, rv, n_)
+        if why:
+            problems.append("the region handed out: " + why)
+        if not st.entails_eq(L.lsub(size1, L.ladd(size0, n_))):
+            problems.append("size does not grow by the reserved byte count")
+        if not st.entails_eq(L.lsub(off1, L.ladd(off0, n_))):
+            problems.append("the file offset of the section does not advance by the reserved byte count")
+        sym, o_ = G.sym_of(data1)
+        a_ = st.tags.get("alloc", {}).get(sym) if sym else None
+        if a_ is None or not a_[1] or not st.entails_le(L.lsub(cap1, a_[0])) or not st.entails_le(L.lsub(size1, cap1)):
+            problems.append("on return the recorded capacity / size exceed the live allocation")
+    for g in prog.all_funcs():
+        if g.name.endswith("StringSection::reset") and g.params:
+            res.touched(g)
+            an2 = L.Analysis(prog)
+            okr = False
+            for rv, st in an2.run(g, L.State()):
+                o_ = an2.read(st, "%s:%s" % (g.name, g.params[0]["n"]), False)
+                okr = "this->offset" in st.cells and st.entails_eq(L.lsub(st.cells["this->offset"], o_)) and \
+                    "this->size" in st.cells and st.entails_eq(st.cells["this->size"])
+            if not okr:
+                problems.append("reset does not rebase the section (offset := argument, size := 0)")
+    inst = "StringSection::reserve hands out n zeroed bytes at data + size inside the buffer and keeps size <= capacity"
+    if good == 0:
+        problems.append("reserve never succeeds")
+    if problems:
+        for m in sorted(set(problems)):
+            res.fail(rule, inst, "%s|string-section" % rule, f.loc(), "StringSection::reserve: %s: description strings overwrite each other or run past the buffer" % m)
+    else:
+        res.oblige(rule, inst, True, "%d successful return state(s)" % good, f.loc())
+
+
 def format_literals(prog, res):
     """Description strings: whatever reaches the format parameter of the
     printf family in tiff.cpp is a string literal; frame ids, timestamps and the
@@ -479,6 +553,7 @@ def run(ctx, res):
         adopt.rule_set_adopts(prog, res, g)
     res.guard(tiff_layout, prog, res)
     res.guard(metadata_file, prog, res)
+    res.guard(string_section, prog, res)
     res.require_min("R-TIFF-LAYOUT", 18)
     res.require_min("R-SET-ADOPTS", 1)
     res.require_min("FINALISE-SIM", 2)
